@@ -109,10 +109,7 @@ type replayer struct {
 }
 
 func goEnv() []string {
-	env := os.Environ()
-	path := "/opt/veriftools/go1.26.8/bin:" + os.Getenv("PATH")
-	env = append(env, "PATH="+path, "GOFLAGS=-mod=mod", "GOPROXY=off", "GOSUMDB=off", "GOTOOLCHAIN=local", "CGO_ENABLED=0")
-	return env
+	return append(os.Environ(), "CGO_ENABLED=0")
 }
 
 // newReplayer compiles, from /repo's current working tree plus the native harness overlay, one test binary per
